@@ -123,6 +123,10 @@ func (t *tr2) assignedOutside(n ast.Node, exclude ...types.Object) []types.Objec
 					add(call.Args[0])
 				}
 			}
+		case *ast.CallExpr:
+			if tgt, m, _, ok := t.atomicCall(x); ok && (m == "Add" || m == "Store") {
+				add(tgt)
+			}
 		case *ast.FuncLit:
 			return false
 		}
@@ -205,7 +209,7 @@ func (t *tr2) assign(lhs ast.Expr, val string, bs *[]bind) {
 		if !ok {
 			// p.f = v through a pointer: only when p is a local created by &T{...} and never copied
 			if pn, isP := ptrStruct(xt); isP {
-				if id, isId := x.X.(*ast.Ident); isId && t.fresh[t.info.Uses[id]] {
+				if id, isId := x.X.(*ast.Ident); isId && (t.fresh[t.info.Uses[id]] || (t.mutRecv != nil && t.info.Uses[id] == t.mutRecv)) {
 					nn, ok, viaPtr = pn, true, true
 				}
 			}
@@ -246,7 +250,7 @@ func (t *tr2) checkWritable(e ast.Expr) {
 				continue
 			case *ast.SelectorExpr:
 				if _, isP := t.info.TypeOf(x.X).Underlying().(*types.Pointer); isP {
-					if id, isId := x.X.(*ast.Ident); !isId || !t.fresh[t.info.Uses[id]] {
+					if id, isId := x.X.(*ast.Ident); !isId || !(t.fresh[t.info.Uses[id]] || (t.mutRecv != nil && t.info.Uses[id] == t.mutRecv)) {
 						t.fail(e, "write through a pointer unsupported (unless it is a local created by &T{...} and never copied)")
 					}
 				}
